@@ -146,6 +146,8 @@ class Walker:
         bb = start
         steps = 0
         trace = []
+        nextsites = {}     # text of an iterator advance `next(..)` -> call sites (blocks) in order of first use on this path
+        nextcur = {}       # ... -> the site that produced the current value
         while True:
             steps += 1
             if steps > self.max_steps:
@@ -196,6 +198,11 @@ class Walker:
                 csym = ('call', c.callee.target_key or '<indirect>', tuple(f.sym_operand(a) for a in c.args), bb)
                 key = canon(csym)
                 events.append(('call', c.callee.name, key, bb, c))
+                if c.callee.name == 'next':
+                    lst = nextsites.setdefault(key, [])
+                    if bb not in lst:
+                        lst.append(bb)
+                    nextcur[key] = bb
                 if not d['p']:
                     env[d['l']] = ('s', key)
                     if f.local_name(d['l']) is not None and not f.is_param(d['l']):
@@ -213,6 +220,17 @@ class Walker:
                     x = v[1]
                 else:
                     key = self._vkey(v[1], ver)
+                    # a second loop over the same iterator expression (count pass / fill pass over 0..n) is a different atom: the
+                    # advance of the loop's own iterator (the longest `next(..)` text inside the key) is tagged with its call site
+                    # when it is not the first site of that text on this path
+                    own = None
+                    for nk in nextsites:
+                        if nk in key and (own is None or len(nk) > len(own)):
+                            own = nk
+                    if own is not None:
+                        i_ = nextsites[own].index(nextcur[own])
+                        if i_ > 0:
+                            key = key + '#%d' % (i_ + 1)
                     domain = [int(a[0]) for a in t['ts']]
                     known = self._decide(v[1], mem)
                     if known is not None and key not in val:
